@@ -49,8 +49,11 @@ def main():
             ids = all_ids if allchecks else sorted(set([meta["property"]] + meta.get("also_check", [])))
             res = {}
             for c in ids:
-                rr = sh(os.path.join(HERE, "vcheck"), c, "--tier", tier, env=dict(os.environ, VERIF_REPO=WT), cwd=HERE)
-                res[c] = {0: "missed", 1: "CAUGHT", 2: "harness-error"}.get(rr.returncode, str(rr.returncode))
+                try:
+                    rr = sh(os.path.join(HERE, "vcheck"), c, "--tier", tier, env=dict(os.environ, VERIF_REPO=WT), cwd=HERE, timeout=1500)
+                    res[c] = {0: "missed", 1: "CAUGHT", 2: "harness-error"}.get(rr.returncode, str(rr.returncode))
+                except subprocess.TimeoutExpired:
+                    res[c] = "timeout"
             results[s] = {"demo_clean": clean, "suite": suite, "demo_with_patch": broken, "checks": res}
             ok = clean == 0 and suite == 0 and broken == 1
             print("%-34s %s  %s" % (s, "valid-seed" if ok else "INVALID(clean=%s suite=%s patched=%s)" % (clean, suite, broken),
